@@ -76,6 +76,13 @@ Definition trim (a : list Qc) : list Qc := rev (dropz (rev a)).
 
 Definition unitk (k : Qc) : bool := Qc_eqb (k * k) 1.          (* |k| = 1 *)
 
+(* the coefficients up to and including the first one of magnitude 1 *)
+Fixpoint upto_unit (ks : list Qc) : list Qc :=
+  match ks with
+  | [] => []
+  | k :: r => if unitk k then [k] else k :: upto_unit r
+  end.
+
 (* ---------------------------------------------------------------- stability *)
 (* product of coefficient lists *)
 Fixpoint pmul (a b : list Qc) : list Qc :=
